@@ -1,0 +1,7 @@
+//go:build !verif
+
+package srv
+
+// verifYield marks a named scheduling point. Without the verif build
+// tag it is an empty function and is inlined away.
+func verifYield(string) {}
